@@ -50,10 +50,18 @@ class Env:
         else:
             MU.asyncio = _REAL_ASYNCIO
         self._conn_of_task = {}
+        self.cid_of = {}   # library connection id -> harness connection id
 
     def _current_conn(self):
+        """harness id of the connection whose task is running (connection ids are mapped by cid_of)"""
         t = asyncio.current_task(self.loop)
-        return self._conn_of_task.get(t)
+        if t in self._conn_of_task:
+            return self._conn_of_task[t]
+        try:
+            from mysql_mimic import context
+            return self.cid_of.get(context.connection_id.get(), 0)
+        except LookupError:
+            return 0
 
     def fut(self, tag):
         f = self.loop.create_future()
